@@ -27,6 +27,12 @@ for t in ITYPES:
     add(f"str[i {t}]", "index", f"res = uint64(e.str[{i}])")
     add(f"sz[i {t}] read (zero-size elems)", "index", f"_ = e.sz[{i}]; res = 1")
     add(f"s2[i {t}][j] read (nested)", "index", f"res = uint64(e.s2[{i}][{cv(t,'lo')}])")
+# arrays whose length sits at the limit of a narrow index type (bounds-check elimination by index type range)
+for (n, t) in [(255, "uint8"), (256, "uint8"), (254, "uint8"), (65535, "uint16"), (65536, "uint16"), (127, "int8"), (128, "int8"), (128, "uint8")]:
+    add(f"a{n}[i {t}] read", "index_limit", f"res = uint64(e.a{n}[{cv(t,'idx')}])")
+    add(f"a{n}[i {t}] write", "index_limit", f"e.a{n}[{cv(t,'idx')}] = 3; res = uint64(e.a{n}[0])")
+    add(f"pa{n}[i {t}] read", "index_limit", f"res = uint64(e.pa{n}()[{cv(t,'idx')}])")
+    add(f"a{n}[l:h {t}]", "index_limit", f"r := e.a{n}[{cv(t,'lo')}:{cv(t,'hi')}]; res = uint64(len(r))")
 # B: slice expressions
 for t in STYPES:
     l, h, m = cv(t,"lo"), cv(t,"hi"), cv(t,"max")
@@ -99,6 +105,11 @@ add("x.(getter) on dyn", "assert", "res = uint64(e.x.(getter).IsNil())")
 add("x.(getter) comma-ok", "assert_ok", "v, ok := e.x.(getter); if ok { res = uint64(v.IsNil()) + 100 }")
 add("x.(string)", "assert", "res = uint64(len(e.x.(string)))")
 add("x.(*P8)", "assert", "res = uint64(e.x.(*P8).IsNil())")
+add("g.(any) from a (possibly nil) non-empty interface", "assert", "v := e.gi.(any); if v != nil { res = 1 }")
+add("x.(emptyNamed) from a (possibly nil) any", "assert", "v := e.x.(emptyNamed); if v != nil { res = 1 }")
+add("err.(any) from a (possibly nil) error", "assert", "v := e.err.(any); if v != nil { res = 1 }")
+add("err.(any) comma-ok", "assert_ok", "v, ok := e.err.(any); if ok && v != nil { res = 1 }")
+add("g.(getter) same static type, nil", "assert", "v := e.gi.(getter); res = uint64(v.IsNil())")
 add("g.(other interface) from non-empty iface", "assert", "res = uint64(e.gi.(interface{ Get() int64 }).Get())")
 for t in ["int","int8","int16","int32","int64","uint8","uint32","uint64"]:
     add(f"{t} / y", "divide", f"res = uint64({cv(t,'lo')} / {cv(t,'hi')})")
@@ -116,6 +127,7 @@ for (T_off, T) in OFFS:
     pad = f"pad [{T_off}]byte; " if T_off != "0" else ""
     o.append(f"type {T} struct {{ {pad}f int64 }}")
 o.append("\nfunc (p P8) Get() int64 { return p.f }\nfunc (p *P8) IsNil() int64 {\n\tif p == nil {\n\t\treturn 1\n\t}\n\treturn 0\n}\n")
+o.append("type emptyNamed interface{}\n")
 o.append("type getter interface{ IsNil() int64 }\n\n//go:noinline\nfunc two(a, b int64) int64 { return a + b }\n")
 for i, (name, fam, body) in enumerate(ops):
     lines = "\n\t".join(body.split("; ")) if False else body
